@@ -84,6 +84,7 @@ class Context:
         """Abstractly run cls.__init__(self, *args) on a fresh instance.
         -> (attrs of the instance after the constructor, raise outcomes)."""
         it = self.interp(policy)
+        self.last_interp = it
         st = self.new_state()
         ci = self.prog.cls(cls_short)
         ref = it.alloc(st, I.InstObj(ci, {}))
@@ -96,4 +97,17 @@ class Context:
         if not done:
             raise AnalysisError('%s.__init__ never completes' % cls_short)
         j = it.join_outcomes(done, 0) if len(done) > 1 else done[0]
-        return dict(it.obj(j.state, ref).attrs), raises
+        ob = it.obj(j.state, ref)
+        attrs = dict(ob.attrs)
+        # what a reader of the attribute gets (descriptors / properties on
+        # the class are honoured): read back through the attribute protocol
+        for nm in list(attrs) + [a.arg for a in init.node.args.args[1:]
+                                 if a.arg not in attrs]:
+            try:
+                it.pending = []
+                v = it.get_attr(ref, nm, j.state, init.node)
+                attrs[nm] = v
+            except Exception:
+                pass
+        it.pending = []
+        return attrs, raises
